@@ -1,4 +1,5 @@
 #include <occa/internal/lang/expr/stringNode.hpp>
+#include <occa/internal/lang/token/stringToken.hpp>
 #include <occa/internal/utils/string.hpp>
 
 namespace occa {
@@ -23,7 +24,23 @@ namespace occa {
     }
 
     void stringNode::print(printer &pout) const {
-      pout << "\"" << escape(value, '"') << "\"";
+      // The encoding prefix and the suffix are part of the literal's type:
+      //   L"abc", u8"abc", u"abc", U"abc", "abc"_udf
+      std::string udf;
+      if (token_t::safeType(token) & tokenType::string) {
+        const stringToken &strToken = *((const stringToken*) token);
+        if (strToken.encoding & encodingType::u8) {
+          pout << "u8";
+        } else if (strToken.encoding & encodingType::u) {
+          pout << 'u';
+        } else if (strToken.encoding & encodingType::U) {
+          pout << 'U';
+        } else if (strToken.encoding & encodingType::L) {
+          pout << 'L';
+        }
+        udf = strToken.udf;
+      }
+      pout << "\"" << escape(value, '"') << "\"" << udf;
     }
 
     void stringNode::debugPrint(const std::string &prefix) const {
